@@ -35,8 +35,10 @@ reg('enum_error_type', ['C16'], 'num_enum TryFrom/Into for ErrorType over all 65
 reg('enum_proxy_authen_type', ['C16'], 'num_enum TryFrom/Into for ProxyAuthenType over all 65536 codes', fn='num_enum derive ProxyAuthenType', secondary=['C05', 'C06', 'C03'])
 reg('enum_stop_ccn_code', ['C16'], 'StopCcnCode derive + CodeValue::{from,into,as_stop_ccn} over all 65536 codes', fn='num_enum derive StopCcnCode')
 reg('enum_cdn_code', ['C16'], 'CdnCode derive + CodeValue::{from,as_cdn} over all 65536 codes', fn='num_enum derive CdnCode')
-reg('message_type_try_read', ['C16', 'C05'], 'MessageType::try_read through the real phf table: all 65536 codes x 0..4 surplus octets; get_code/write',
-    fn='message::avp::types::message_type::MessageType::try_read', secondary=['C06', 'C20', 'C03', 'C08', 'C15', 'C10'])
+reg('message_type_try_read', ['C16', 'C05'], 'MessageType::try_read through the real phf table: all 65536 codes x 0..4 surplus octets',
+    fn='message::avp::types::message_type::MessageType::try_read', secondary=['C20', 'C08', 'C15', 'C10'])
+reg('message_type_write', ['C16', 'C06'], 'MessageType encoder: each of the 14 named values (reached through its RFC number) encodes to attribute type 0 + that number; get_length',
+    fn='message::avp::types::message_type::<MessageType as WritableAVP>::write', secondary=['C03', 'C10', 'C07'])
 reg('message_type_try_read_short', ['C05'], 'MessageType::try_read with < 2 octets', fn='message::avp::types::message_type::MessageType::try_read', secondary=['C20', 'C01'])
 reg('message_type_try_read_symreader', ['C02'], 'MessageType::try_read against any conforming reader: unchecked-call preconditions, all lengths',
     fn='message::avp::types::message_type::MessageType::try_read', secondary=['C01'])
@@ -47,8 +49,9 @@ reg('bitmask_framing_type', ['C17'], 'FramingType: new->accessors on bool^2; dec
 reg('slice_reader_ints', ['C18'], 'SliceReader::read_u{16,32,64}_be_unchecked: value, advance, pointer validity',
     fn='common::slice_reader::<SliceReader as Reader>::read_u{16,32,64}_be_unchecked', complete=False, bound='backing slice <= 16 octets (bodies inspect <= 8)',
     secondary=['C02', 'C01', 'C05'])
-reg('vec_writer_ints', ['C18'], 'VecWriter::new is empty; write_u{16,32,64}_be append big-endian octets after any prefix of <= 3 octets',
-    fn='common::vec_writer::{VecWriter::new, <VecWriter as Writer>::write_u{16,32,64}_be}', complete=False, bound='prefix <= 3 octets', secondary=['C09', 'C06'])
+for _w in ('u8', 'u16', 'u32', 'u64'):
+    reg('vec_writer_' + _w, ['C18'], 'VecWriter::new is empty; write_%s%s appends the big-endian octets after any prefix of <= 3 octets; len/is_empty' % (_w, '' if _w == 'u8' else '_be'),
+        fn='common::vec_writer::{VecWriter::new, <VecWriter as Writer>::write_%s%s}' % (_w, '' if _w == 'u8' else '_be'), complete=False, bound='prefix <= 3 octets', secondary=['C09', 'C06'])
 reg('vec_writer_write_bytes_at', ['C18'], 'write_bytes_at overwrites in place, length unchanged', fn='common::vec_writer::<VecWriter as Writer>::write_bytes_at',
     complete=False, bound='buffer <= 16 octets, patch <= 4 octets', secondary=['C09', 'C06', 'C07'])
 reg('vec_writer_write_bytes_at_refuses_outside', ['C18'], 'write_bytes_at outside the written data panics', fn='common::vec_writer::<VecWriter as Writer>::write_bytes_at',
@@ -79,6 +82,9 @@ def twin_harnesses(fnkeys):
     return out
 
 
+TWIN_PROPS = ['C03', 'C05', 'C06', 'C07']
+
+
 def harnesses_for(props, tier):
     out = []
     for h in H.values():
@@ -86,6 +92,16 @@ def harnesses_for(props, tier):
             if h['tier'] == 'thorough' and tier != 'thorough':
                 continue
             out.append(dict(h))
+    if tier == 'thorough' and set(props) & set(TWIN_PROPS):
+        # thorough tier: the generated Kani twins (complete, per fixed-layout AVP kind, from the specification table) run
+        # as a second, independent back end next to the Verus proofs of the same functions.  A twin mixes clauses of
+        # several properties (accept / value / length / octets / re-decode), so its failure is *secondary* for each:
+        # the witness search of the property decides.
+        import spec_table
+        _, twins = spec_table.kani_twins()
+        for name, fns in sorted(twins.items()):
+            out.append({'name': name, 'props': [], 'secondary': list(TWIN_PROPS), 'complete': True, 'bound': None, 'tier': 'thorough',
+                        'what': 'Kani twin: complete check of %s against the specification table' % ', '.join(fns), 'fn': ', '.join(fns), 'twin_of': fns})
     return out
 
 
